@@ -121,6 +121,17 @@ func main() {
 	dir, _ := os.MkdirTemp("", "cfg")
 	defer os.RemoveAll(dir)
 	os.Chdir(dir)
+	// the working directory looks like a checkout: other configuration files lie around (the repository's src/config.yaml - here with other
+	// values under every key -, an editor's copy, a file with the other extension).  The emulator reads ./config.yaml and nothing else.
+	if len(shipped) > 0 {
+		decoy := []byte(strings.NewReplacer("192.168.61", "10.99.99", "001010000000001", "999990000000007", "open5gs", "decoy", "38412", "1",
+			"ue_number: ", "ue_number: 7", "internet", "decoy").Replace(string(shipped)))
+		os.MkdirAll("src", 0755)
+		os.MkdirAll("conf", 0755)
+		for _, p := range []string{"src/config.yaml", "config.yml", "config.yaml~", "conf/config.yaml", "config.yaml.example"} {
+			os.WriteFile(p, decoy, 0644)
+		}
+	}
 	load := func(id interface{}, assignS map[string][]int, assignI map[string]int64) {
 		var c stgutg.Conf
 		p := ev.Catch(func() { c.GetConfiguration() })
